@@ -1,6 +1,145 @@
 """Independent XSLT 1.0 reference interpreter (pure Python, stdlib only).
 
-__HEADER_PLACEHOLDER__
+Written from the W3C XSLT 1.0 Recommendation (16 Nov 1999).  A direct recursive
+interpreter over a compiled instruction tree; shares no code with Xalan-C or
+libxslt.  XPath evaluation and pattern matching are delegated to vf.ref_xpath,
+source documents are vf.model Documents.  Strict conformance is preferred over
+coverage: whatever is outside the supported subset, implementation-defined or
+ambiguous in the Recommendation raises XSLTUnsupported so that the caller can
+discard the case instead of trusting a guess.
+
+API
+---
+  compile_stylesheet(text, uri, resolver) -> Stylesheet
+        resolver(href_as_written, base_uri) -> text (str/bytes) | None; used for
+        xsl:import / xsl:include.  Relative references are resolved with the
+        scheme-independent urljoin() of this module (RFC 3986).
+  transform(stylesheet, source_document, params=None, resolver=None, messages=None)
+        -> ResultRoot (ResultNode kind 'root' + .output .recoveries .messages)
+        params: {'local' | '{uri}local': str | float | int | bool}
+        resolver: as above, for document(); for document('') it receives the
+        absolute URI of the stylesheet module as first argument.
+  result_to_events(node) / dump(node): canonical nested tuples
+        ('E',(uri,local),{(uri,local):value},[children]) | ('T',s) | ('C',s) | ('P',target,data)
+  model_to_events(model_node): the same form for a parsed document.
+  XSLTStaticError / XSLTDynamicError / XSLTUnsupported
+  sort_is_codepoint = True: xsl:sort data-type="text" is plain code-point order.
+
+Errors that the Recommendation lets a processor signal OR recover from are
+recovered in the prescribed way and the clause is recorded in
+result.recoveries:
+  3.4-strip-preserve-conflict      last xsl:strip-space/preserve-space wins
+  5.5-template-conflict            last matching rule in the stylesheet wins
+  7.1.2-element-name-not-qname     content instantiated without the element and
+                                   without its initial attribute nodes
+  7.1.3-attribute-name-not-qname   attribute not added (also name="xmlns")
+  7.1.3-attribute-after-children   attribute ignored
+  7.1.3-attribute-on-non-element   attribute ignored
+  7.1.3-non-text-in-attribute, 7.3-non-text-in-pi, 7.4-non-text-in-comment
+                                   offending nodes ignored with their content
+  7.1.4-attribute-set-conflict     last definition wins (detected only for
+                                   attribute names that are not AVTs)
+  7.3-pi-name                      PI not added;  7.3-pi-close  "?>" -> "? >"
+  7.4-comment-dashes               "--" -> "- -", trailing "-" -> "- "
+  12.1-document-unretrievable, 12.1-document-empty-base   empty node-set
+  16-output-conflict               last xsl:output value wins
+
+===========================================================================
+Ambiguities  (the Recommendation is silent, offers a choice or is read in two
+ways; the choice made here is stated -- generators should stay away)
+===========================================================================
+ B1  Global variables are all evaluated before the first template, in
+     declaration order, dependencies on demand.  A processor evaluating
+     lazily would not report an error in (nor xsl:message from) an unused
+     variable.  Circularity is detected when it happens (XSLTStaticError).
+ B2  Order of nodes from DIFFERENT documents in one node-set is
+     implementation-dependent (XPath 5); here documents are ordered by
+     creation (source document, then document() loads and result tree
+     fragments in the order they came into being).  Never iterate over / take
+     the first node of a set that spans documents.
+ B3  xsl:sort data-type="number": NaN keys sort before all numbers in
+     ascending order (after them in descending); the Rec does not say.  Equal
+     keys keep document order in both directions (stable).  Keys are converted
+     to string first and only then to number, as the Rec says (so a boolean
+     key is NaN).
+ B4  xsl:sort data-type="text" uses code-point order; lang / case-order raise
+     XSLTUnsupported.  Restrict keys to [a-z0-9] (and '') to be portable.
+ B5  xsl:number
+     - current node a root or namespace node: XSLTUnsupported (the default
+       count "pattern" would match the root itself, which no pattern can say);
+     - from: XSLTUnsupported if the current node itself matches `from`
+       (ancestor vs ancestor-or-self reading) or if no node matches it
+       (unrestricted vs empty);  otherwise single/multiple search the
+       ancestors-or-self that are proper descendants of the NEAREST PROPER
+       ancestor matching `from`; any counts the nodes AFTER the nearest
+       node before the current node (ancestor or preceding) matching `from`,
+       that node excluded;
+     - level="any" counting no node: XSLTUnsupported ([0] by the letter, empty
+       in XSLT 2.0);  level="any" on an attribute node: XSLTUnsupported;
+     - empty list with a format that has prefix/suffix punctuation, a format
+       made of punctuation only ("."), value < 1 / NaN / infinite, roman > 3999,
+       any format token other than 1 01 001.. a A i I, zero padding combined
+       with grouping, grouping-size not a positive integer, lang,
+       letter-value: XSLTUnsupported;
+     - grouping-separator and grouping-size are ignored unless both are given.
+ B6  Attribute sets: several definitions of one name with EQUAL import
+     precedence where one of them has use-attribute-sets: XSLTUnsupported
+     (does an attribute obtained through use-attribute-sets count as
+     "contained" for the 7.1.4 conflict rule?).  With DIFFERENT precedence the
+     definitions are expanded in increasing precedence, each as
+     [used sets..., own attributes], so an attribute reached through
+     use-attribute-sets of a higher-precedence definition beats an own
+     attribute of a lower one ("equivalent to adding xsl:attribute elements
+     to the beginning of the content").  Reference to an undeclared attribute
+     set: XSLTUnsupported.
+ B7  Namespace aliasing: a namespace node (prefix P, stylesheet URI) becomes
+     (P, result URI) -- the prefix of the stylesheet declaration is kept;
+     exclusion (exclude-result-prefixes, XSLT namespace) is decided on the
+     stylesheet URI before aliasing.  #default without a default namespace
+     declaration in scope: XSLTUnsupported.  Only expanded names are portable.
+ B8  ResultNode.namespaces holds exactly the namespace nodes the copying rules
+     of 7.1.1 / 7.5 / 11.3 create (literal result elements, xsl:copy,
+     xsl:copy-of); xsl:element / xsl:attribute add none and no fix-up is
+     applied.  Serialization needs more declarations than these.
+ B9  exsl:node-set / xalan:nodeset of a result tree fragment: the nodes get
+     the namespace nodes of their parent, their own, and bindings for the
+     names they use (as if serialized and re-parsed); name() of namespaced
+     nodes there depends on prefix choice.  The converted tree is a different
+     document than the fragment, the same one on every call.  node-set() of a
+     string/number/boolean: XSLTUnsupported.
+ B10 key() naming an undeclared key: XSLTUnsupported.  key() inside xsl:key
+     use/match: XSLTUnsupported.
+ B11 unparsed-entity-uri(): the system identifier resolved against the
+     document URI (the Rec does not say how absolute the result is).
+ B12 document(): a fragment identifier raises XSLTUnsupported.  Two
+     references are the same document iff their absolute URIs (after RFC 3986
+     resolution, no case/escape normalization) are equal; the source
+     document's own URI yields the source document.
+ B13 The effective value of a variable whose content is only whitespace is
+     the empty STRING (the whitespace text node is stripped from the
+     stylesheet first), not a result tree fragment.
+ B14 Priority attribute: leading/trailing XML whitespace is tolerated.
+ B15 xsl:message: the string-value of the instantiated content is appended to
+     `messages`; nothing else is observable.
+ B16 Copying a namespace node (xsl:copy / xsl:copy-of of namespace::*) after
+     children were added or to a non-element: XSLTUnsupported (XSLT 1.0 has no
+     rule).  Unbound prefix in a computed element/attribute name without a
+     namespace attribute: XSLTDynamicError (not among the recoverable errors).
+ B17 xsl:attribute name="xmlns" is rejected (recovery) even with a namespace
+     attribute, as the sentence in 7.1.3 is unconditional.
+ B18 generate-id(): 'id<doc>n<node>' -- only equality is meaningful.
+ Plus everything listed in vf.ref_xpath (A1..A15), in particular attribute /
+ namespace node order within one element.
+
+Unsupported (XSLTUnsupported at compile time)
+---------------------------------------------
+ version other than 1.0 / forwards-compatible mode, xsl:fallback, literal
+ result element as stylesheet, embedded stylesheets, extension-element-prefixes
+ and xsl:extension-element-prefixes / xsl:version on literal result elements,
+ disable-output-escaping="yes", xsl:decimal-format, format-number(),
+ system-property(), element-available(), function-available(), xsl:sort
+ lang / case-order / data-type=QName, xsl:number lang / letter-value,
+ documents with external entity references.
 """
 import functools
 import re
